@@ -494,12 +494,13 @@ def run(ctx):
         specs += H.line_variants(
             specs, lambda p: p.get("simultaneous") or len(p["phases"]) == 1 and p["phases"][0]["stop_at"] == 0.0
             and p["phases"][0]["population"] == "none" and not p["phases"][0].get("concurrent")
-            and p["phases"][0]["end"].startswith("shutdown")
+            and p["phases"][0]["end"] in ("shutdown:outside", "shutdown:payload")
             and p["phases"][0]["thread"] == "main")
     else:
         specs += H.line_variants(
             specs, lambda p: p.get("simultaneous") or len(p["phases"]) == 1
             and p["phases"][0]["stop_at"] in (0.0, 0.05)
+            and p["phases"][0]["end"] not in HELPER_ENDS
             and p["phases"][0]["population"] in ("none", "submitter"))
     ctx.pmap(H.shard, specs, cost=lambda spec: len(spec["params"]["phases"])
              + 2 * bool(spec["opts"].get("line_points")))
